@@ -582,9 +582,9 @@ func runC08(tier string, seed uint64) int {
 			mismatches = append(mismatches, o.mm)
 		}
 	}
-	reported := 0
+	reported, tried := 0, 0
 	for _, mm := range mismatches {
-		if reported >= 3 {
+		if reported >= 3 || tried >= 8 {
 			fmt.Printf("note: %d further mismatching cases not minimised (3 violations already reported)\n", len(mismatches)-reported)
 			break
 		}
@@ -597,6 +597,8 @@ func runC08(tier string, seed uint64) int {
 		}
 		if rp.violation(rep) {
 			reported++
+		} else if knownFinding(rp.findings, rep.Property, rep.Sig) == nil {
+			tried++ // a repeat of a signature already reported in this run (listed findings never count)
 		}
 	}
 	canaryHits := rp.canaries()
